@@ -9,7 +9,19 @@ import sys
 VERIF = os.path.dirname(os.path.dirname(os.path.abspath(__file__)))
 REPO = os.environ.get("VERIF_REPO", "/repo")  # the tree the change is applied to (default: /repo itself)
 GROUPS = {"G1": ["C06", "C07", "C08", "C13"], "G2": ["C10", "C11", "C20", "C21"], "G3": ["C14", "C15", "C16", "C27"], "G4": ["C22", "C23", "C24", "C17"], "G5": ["C02", "C03", "C05", "C25"], "G6": ["C04", "C12", "C18", "C19", "C26"]}
-EXTRA = ["C01", "C09"]  # cross-cutting checks run for every control
+EXTRA = ["C01", "C09", "C17", "C19"]  # cross-cutting checks run for every control
+
+
+def props_for_files(files):
+    """properties whose anchor files include a touched file (properties.jsonl)"""
+    import json
+    out = []
+    with open(os.path.join(VERIF, "properties.jsonl")) as fd:
+        for line in fd:
+            p = json.loads(line)
+            if any(f in p.get("anchors", {}).get("files", []) for f in files):
+                out.append(p["id"])
+    return out
 
 
 def sh(cmd, cwd=REPO, env=None, timeout=1800):
@@ -40,7 +52,8 @@ def main():
                 sh(f"rm -rf {REPO}/.hypothesis")
                 _rc, tout = sh("/venv/bin/python -m pytest -q -p no:cacheprovider --continue-on-collection-errors 2>&1 | tail -1")
                 res = []
-                for p in GROUPS[g] + EXTRA:
+                touched = sorted({l[6:].strip() for l in open(os.path.join(d, "patch.diff")) if l.startswith("+++ b/")})
+                for p in sorted(set(GROUPS[g] + EXTRA + props_for_files(touched))):
                     rc, out = sh(f"./check {p}", cwd=VERIF, env={"VERIF_NO_EVIDENCE": "1", "VERIF_REPO": REPO})
                     bad = [l[:230] for l in out.splitlines() if l.startswith(("VIOLATION", "CHECKER-ERROR"))]
                     res.append((p, rc, bad))
